@@ -12,7 +12,7 @@ extern "C" const vapi dflt_api;
 static const vapi *A = &dflt_api;
 static TailBuf TB(4096);
 static const Bytes *g_bytes;
-static Obj *OBJ[4];
+static Obj *OBJ[4], *OBJT[4];   // TLD checking off / on with every class allowed
 
 static Case mkcase(const Bytes &d) { Case c; c.b("domain", d); return c; }
 
@@ -50,6 +50,14 @@ static std::optional<Failure> check_one(Run &R, const Bytes &d) {
                 return Failure{"6531-accepts-invalid-alabel", mkcase(d).str(), "mode 6531 accepted 'x@" + show(d) + "' whose A-label form '" + show(t.out) + "' violates the host-name rules"};
             if (t.out != d) R.count("6531-accepted-converted");
         } else if (want && ref::pure_ascii(d)) R.count("6531-rejects-ascii-valid(IDNA rules)");
+        // with TLD checking on (every class allowed) acceptance still implies a valid host name:
+        // no TLD / reserved-name shortcut may bypass the syntax rules
+        for (int m = 0; m < 4; m++) {
+            v_outcome t = OBJT[m]->is_email_tail(TB, addr); R.eval();
+            if (t.ret != 1) continue;
+            bool okh = m < 3 ? want : (to_ascii(d).rc == IDN2_OK && ref::host_ok(to_ascii(d).out));
+            if (!okh) return Failure{"tld-path-accepts-invalid-host", mkcase(d).str(), "address 'x@" + show(d) + "' mode " + ref::MODE_NAME[m] + " TLD checking on, all classes allowed: accepted although the host name" + (m < 3 ? "" : "'s A-label form") + " violates the rules: " + outcome_str(t)};
+        }
     }
     return std::nullopt;
 }
@@ -107,6 +115,12 @@ static void stage_lengths(Run &R) {
         for (const Bytes &d : {X + "b.com", "a" + X + "b.com", "a" + X + ".com", "a." + X + "b", "a.b" + X, "a.b" + X + "c", X, X + ".com", "a." + X})
             if (!go(d)) return;
     }
+    // every byte inside a label in front of each reserved suffix and of listed TLDs (TLD path must not bypass the syntax rules)
+    for (int x = 1; x < 256; x++) {
+        Bytes X(1, (char) x);
+        for (const char *sfx : {"example.com", "test", "localhost", "onion", "example.org", "invalid", "com", "ru", "xn--p1ai"})
+            for (const Bytes &d : {"a" + X + "b." + sfx, X + "." + sfx}) if (!go(d)) return;
+    }
     // all-numeric shapes
     for (const char *s : {"1", "12", "1.2", "1.2.3.4", "1.2.3.4.", "123.456", "1a.2", "1-2", "1.2-3", "0", "1.a", "a.1", "1_2", "4294967296", "1..2", "127.0.0.1", "1.2.3.com", "1.2.3.4.com"})
         if (!go(s)) return;
@@ -144,6 +158,7 @@ int main(int argc, char **argv) {
     install_death(R.a);
     inflight() = [] { return g_bytes ? mkcase(*g_bytes).str() : std::string(); };
     for (int m = 0; m < 4; m++) { OBJ[m] = new Obj(A); if (OBJ[m]->configure(m, 0) != 0) { fprintf(stderr, "eav_setup failed\n"); return 2; } }
+    for (int m = 0; m < 4; m++) { OBJT[m] = new Obj(A); if (OBJT[m]->configure(m, 1, 0x7ff) != 0) return 2; }
     int rcode;
     if (!R.a.replay.empty()) {
         auto f = check_one(R, Case::parse(R.a.replay).getb("domain"));
@@ -157,6 +172,6 @@ int main(int argc, char **argv) {
         else { fprintf(stderr, "unknown stage %s\n", R.a.stage.c_str()); return 2; }
         rcode = finish(R);
     }
-    for (int m = 0; m < 4; m++) delete OBJ[m];
+    for (int m = 0; m < 4; m++) { delete OBJ[m]; delete OBJT[m]; }
     return rcode;
 }
